@@ -286,6 +286,9 @@ func NewReporter(opts Options) (Reporter, error) {
 		tagCache:        cache.NewTagCache(),
 	}
 
+	// n.b. Values can be reported before the time loop below has run once.
+	r.now.Store(time.Now().UnixNano())
+
 	internalTags := map[string]string{
 		"version":  tally.Version,
 		"host":     tally.DefaultTagRedactValue,
